@@ -649,16 +649,24 @@ func (c *Ctx) noteHeapWrite(st *State, lf leaf, ref *Term) {
 	k := lf.Key + "@" + fmt.Sprint(ref.id)
 	if st.Disc != nil {
 		if st.Disc.NameStart > 0 && mentionsFreshAfter(ref, st.Disc.FreshStart, st.Disc.NameStart) {
-			// the region written is named by a symbol created inside the loop body (e.g. the slice a callee's
-			// contract hands back): it has another name on every pass, and it may be any region - the whole leaf
-			// is havoced at the cut
-			st.Disc.WholeHeap[lf.Key] = true
+			if allocatedInside(ref, st.Disc.FreshStart) {
+				// a region allocated in this iteration (its reference is an allocation mark taken inside the
+				// loop body): it lies above every region that existed at loop entry, nothing to havoc at the cut
+			} else {
+				// the region written is named by a symbol created inside the loop body (e.g. the slice a callee's
+				// contract hands back): it has another name on every pass, and it may be any region - the whole
+				// leaf is havoced at the cut
+				st.Disc.WholeHeap[lf.Key] = true
+			}
 		} else {
 			st.Disc.HeapRefs[k] = heapRef{Leaf: lf.Key, Ref: ref, Sort: ArraySort(c.IntSort(), lf.Sort)}
 		}
 	}
 	for _, ws := range st.Record {
 		if ws.WholeHeap[lf.Key] {
+			continue
+		}
+		if ws.NameStart > 0 && allocatedInside(ref, ws.FreshStart) {
 			continue
 		}
 		if _, ok := ws.HeapRefs[k]; !ok {
@@ -1240,4 +1248,33 @@ func mentionsFreshAfter(t *Term, n, m int) bool {
 		return false
 	}
 	return walk(t)
+}
+
+// allocatedInside: the reference is an allocation mark (alloc.call!N / alloc.loop..!N, possibly plus a constant)
+// taken after the fresh-symbol counter stood at n
+func allocatedInside(t *Term, n int) bool {
+	if t == nil {
+		return false
+	}
+	if t.Op == "+" {
+		hit := false
+		for _, a := range t.Args {
+			if a.Op == "const" {
+				continue
+			}
+			if !allocatedInside(a, n) {
+				return false
+			}
+			hit = true
+		}
+		return hit
+	}
+	if t.Op == "var" && strings.HasPrefix(t.Name, "alloc.") {
+		if i := strings.LastIndex(t.Name, "!"); i >= 0 {
+			if k, err := strconv.Atoi(t.Name[i+1:]); err == nil && k > n {
+				return true
+			}
+		}
+	}
+	return false
 }
